@@ -188,7 +188,10 @@ impl Axecutor {
                         segment.p_offset,
                     );
 
-                    let memsz = round_up_to_page_size(segment.p_memsz);
+                    // The area starts at p_vaddr (which need not be page-aligned) and extends to the
+                    // end of the last page the segment touches
+                    let memsz = round_up_to_page_size(segment.p_vaddr + segment.p_memsz)
+                        - segment.p_vaddr;
 
                     if memsz == segment.p_filesz {
                         axecutor.mem_init_area_named(
